@@ -11,6 +11,7 @@ def main():
     ap.add_argument("--tier", default=os.environ.get("VERIF_TIER") or "quick", choices=["quick", "thorough"])
     ap.add_argument("--replay")
     ap.add_argument("--eval-case")
+    ap.add_argument("--cluster", action="store_true")
     a = ap.parse_args()
     seed = int(os.environ.get("VERIF_SEED") or 0)
     from . import runner, sut
@@ -25,6 +26,9 @@ def main():
         case = json.load(open(a.eval_case))
         _, res = runner._eval_one((0, case))
         print("EVAL-RESULT " + json.dumps(res))
+        return 0
+    if a.cluster:
+        runner.cluster(a.prop.upper(), a.tier)
         return 0
     if a.replay:
         return runner.replay(a.prop.upper(), a.replay)
